@@ -36,6 +36,7 @@ type fconn struct {
 	n      *fnet
 	id     int
 	peer   int
+	zombie bool // kept open by a peer that shut down: writes succeed, nobody reads
 	inbox  chan item
 	recv   int32 // calls of Receive
 	pushed int32 // items handed to Receive
@@ -54,7 +55,9 @@ func (c *fconn) Send(msg network.Message) (uint64, error) {
 	if alive {
 		if m, ok := msg.(*TMsg); ok {
 			c.n.mu.Lock()
-			c.n.delivered = append(c.n.delivered, [2]int{m.ID, c.id})
+			if !c.zombie {
+				c.n.delivered = append(c.n.delivered, [2]int{m.ID, c.id})
+			}
 			c.n.mu.Unlock()
 		}
 		return 8, nil
@@ -151,6 +154,7 @@ type fnet struct {
 	self      *network.ServerIdentity
 	peers     []*network.ServerIdentity
 	up        []bool
+	inc       []int
 	conns     []*fconn
 	listenFn  func(network.Conn)
 	delivered [][2]int
@@ -208,6 +212,7 @@ func newFnet(tcp bool, np, nh int) *fnet {
 		n.peers = append(n.peers, network.NewServerIdentity(kp(i+1).Public,
 			network.NewLocalAddress(fmt.Sprintf("127.0.0.1:%d", 3001+i))))
 		n.up = append(n.up, true)
+		n.inc = append(n.inc, 0)
 	}
 	n.host = &fhost{n: n, quit: make(chan struct{})}
 	n.S = network.NewRouter(n.self, n.host)
@@ -298,13 +303,14 @@ func errOfClass(e string) error {
 const opDeadline = 10 * time.Second
 
 type opj struct {
-	K   string `json:"k"`
-	P   int    `json:"p,omitempty"`
-	C   int    `json:"c,omitempty"`
-	H   int    `json:"h,omitempty"`
-	E   string `json:"e,omitempty"`
-	M   []int  `json:"m,omitempty"`
-	Buf bool   `json:"buf,omitempty"`
+	K      string `json:"k"`
+	P      int    `json:"p,omitempty"`
+	C      int    `json:"c,omitempty"`
+	H      int    `json:"h,omitempty"`
+	E      string `json:"e,omitempty"`
+	M      []int  `json:"m,omitempty"`
+	Buf    bool   `json:"buf,omitempty"`
+	Closes bool   `json:"closes,omitempty"`
 }
 
 func (o opj) coq() string {
@@ -323,6 +329,10 @@ func (o opj) coq() string {
 		return fmt.Sprintf("OIncomingFail %d", o.P)
 	case "crash":
 		return fmt.Sprintf("OCrash %d", o.P)
+	case "crashsending":
+		return fmt.Sprintf("OCrashSending %d", o.P)
+	case "abandoneddial":
+		return fmt.Sprintf("OAbandonedDial %d %s", o.P, lib.Bool(o.Closes))
 	case "restart":
 		return fmt.Sprintf("ORestart %d", o.P)
 	case "recverr":
@@ -431,16 +441,17 @@ func (n *fnet) exec(o opj) (int, bool, bool) {
 		case <-time.After(opDeadline):
 			return 0, false, true
 		}
-	case "incoming", "incomingfail":
+	case "incoming", "incomingfail", "abandoneddial":
 		n.mu.Lock()
-		if o.K == "incoming" && !n.up[o.P] {
+		if (o.K == "incoming" && !n.up[o.P]) || (o.K == "abandoneddial" && n.up[o.P]) {
 			n.mu.Unlock()
 			return 0, true, false
 		}
-		c := n.newConnLocked(o.P, o.K == "incoming")
+		c := n.newConnLocked(o.P, o.K == "incoming" || (o.K == "abandoneddial" && !o.Closes))
+		c.zombie = o.K == "abandoneddial" && !o.Closes
 		fn := n.listenFn
 		n.mu.Unlock()
-		if o.K == "incoming" {
+		if o.K != "incomingfail" {
 			c.push(item{env: &network.Envelope{MsgType: network.ServerIdentityType, Msg: n.peers[o.P]}})
 		} else {
 			c.push(item{err: xerrors.Errorf("receiving: %w", network.ErrEOF)})
@@ -472,6 +483,7 @@ func (n *fnet) exec(o opj) (int, bool, bool) {
 			return 0, true, false
 		}
 		n.up[o.P] = true
+		n.inc[o.P]++
 		return 0, false, false
 	case "recverr", "recvmsg":
 		n.mu.Lock()
@@ -641,6 +653,9 @@ func classOfScript(in input) string {
 	}
 	if kinds["close"] {
 		cl += "-close"
+	}
+	if kinds["abandoneddial"] {
+		cl += "-abandoned"
 	}
 	if in.Label != "" {
 		cl += ":" + in.Label
